@@ -1416,6 +1416,14 @@ func scnFiles(rep *Report, rng *Rng, tier string, outdir string) {
 				Ops: []FOp{{Kind: "seek", Off: int64(ab[0]), Whence: io.SeekStart}, {Kind: "read", K: ab[1] - ab[0]}}})
 		}
 	}
+	// ... two blocks unavailable at once with different errors: the child the offset falls strictly into (declared size: it
+	// is opened on the spot) and a later child that has to be opened to be measured - the former's error comes first
+	for _, off := range []int64{3, 0, 7, 8} {
+		addRead(FileInput{Hand: "nosizes-short-blocksizes", Mode: "faults", Opener: "lazy", Size: 28, Faults: [][2]int{{1, 1}, {2, 2}},
+			Ops: []FOp{{Kind: "seek", Off: off, Whence: io.SeekStart}, {Kind: "read", K: 5}, {Kind: "read", K: 5}}})
+		addRead(FileInput{Hand: "nosizes-short-blocksizes", Mode: "faults", Opener: "direct", Size: 28, Faults: [][2]int{{1, 2}, {3, 1}},
+			Ops: []FOp{{Kind: "seek", Off: off, Whence: io.SeekStart}, {Kind: "read", K: 30}}})
+	}
 	// ... and with every single block below the root unavailable, read sequentially (then once more after the error)
 	for hi, hand := range append([]string{"nosizes-tree-1", "nosizes-tree-2", "nosizes-short-blocksizes"}, randUnsized...) {
 		base := FileInput{Hand: hand, Mode: "faults"}
@@ -1433,6 +1441,27 @@ func scnFiles(rep *Report, rng *Rng, tier string, outdir string) {
 				in.Ops = append(in.Ops, FOp{Kind: "read", K: k})
 			}
 			in.Ops = append(in.Ops, FOp{Kind: "read", K: k}, FOp{Kind: "seek", Off: 0, Whence: io.SeekEnd}, FOp{Kind: "seek", Off: 2, Whence: io.SeekStart}, FOp{Kind: "read", K: 5})
+			addRead(in)
+		}
+		// several blocks unavailable at once, with different errors, read from a random offset
+		mf := &Rng{s: rng.s ^ 0x5bd1e9955bd1e995} // a side stream: the main one is left where it is
+		nsubU := 3
+		if tier == "thorough" {
+			nsubU = 30
+		}
+		for j := 0; j < nsubU && len(fc.order) > 2; j++ {
+			in := base
+			in.Opener = []string{"direct", "lazy"}[j%2]
+			for i := 1; i < len(fc.order); i++ {
+				if mf.Intn(3) == 0 {
+					in.Faults = append(in.Faults, [2]int{i, 1 + mf.Intn(2)})
+				}
+			}
+			if len(in.Faults) < 2 {
+				continue
+			}
+			in.Ops = []FOp{{Kind: "seek", Off: int64(mf.Intn(base.Size + 1)), Whence: io.SeekStart}, {Kind: "read", K: 1 + mf.Intn(base.Size+2)}, {Kind: "read", K: 3},
+				{Kind: "seek", Off: int64(mf.Intn(base.Size + 1)), Whence: io.SeekStart}, {Kind: "read", K: base.Size + 2}}
 			addRead(in)
 		}
 	}
